@@ -313,6 +313,17 @@ def run(tier):
         rep.ob("C18.paths|%s|explicit" % short, optname in optf and other_opt not in optf,
                "the path given with the %s option is the one passed to %s" % (optname, short) if optname in optf and other_opt not in optf else
                "%s's path depends on option field(s) %s; expected `%s` (and `source` for the default) only" % (short, sorted(optf), optname), loc=loc)
+        # the path that was asked for is the path that is written: from the option to the writer nothing but clone / unwrap_or steps
+        TR = {"<std::option::Option<T> as std::clone::Clone>::clone", "<std::path::PathBuf as std::clone::Clone>::clone",
+              "std::option::Option::<T>::unwrap_or", "std::option::Option::<T>::unwrap_or_else", "std::option::Option::<T>::unwrap_or_default",
+              "<std::option::Option<std::path::PathBuf> as std::clone::Clone>::clone"}
+        cht = MU.Chaser(b, transparent=TR)
+        r_, pr_, _ = cht.root(t["args"][0])
+        fs_ = MU.proj_fields(pr_)
+        as_given = r_ is not None and is_opt_local(P, key, b, r_) and fs_[:1] == [opt_fields.index(optname)] if optname in opt_fields else False
+        rep.ob("C18.paths|%s|as-given" % short, bool(as_given),
+               "the %s path goes to %s as it was given (clone / unwrap_or only)" % (optname, short) if as_given else
+               "the path given with the %s option is worked on before it reaches %s (it is not the option's value itself that is passed): a relative -o/-e path may end up somewhere else than asked for" % (optname, short), loc=loc)
         okd = suffix in strs and (other_suffix is None or other_suffix not in strs) and "source" in optf \
             and "std::path::Path::file_stem" in callnames and "std::path::Path::parent" in callnames and \
             ("std::path::PathBuf::push" in callnames or "std::path::Path::join" in callnames)
